@@ -20,12 +20,6 @@ remains an environment hypothesis for C03 is that MPI completes matched operatio
 namespace YgmVerif.BarrierME
 open YgmVerif.Barrier (sumTo upd b2n upd_same upd_other sumTo_congr sumTo_change sumTo_le sumTo_const_zero b2n_false b2n_true)
 
-def isLoop : Label → Bool
-  | .contribute _ => true
-  | .result _ => true
-  | .exit _ => true
-  | _ => false
-
 /-- what holds along a loop-only continuation of the quiescent state `s0` -/
 structure Drain (n K e : Nat) (s0 s : Sys) : Prop where
   sentEq : s.sent = s0.sent
